@@ -10,3 +10,8 @@ package reservation
 //@ func CreateOrUpdateReservationOptions [C17]
 //@   modifies nothing
 //@   option trusted
+
+// "Scheduled" implies a non-empty scheduled node (the observer the controller compares with the pod's node).
+//@ func IsReservationScheduled [C17]
+//@   ensures #node: result ==> r.GetScheduledNodeName() != ""
+//@   modifies nothing
